@@ -7,7 +7,8 @@ Import ListNotations.
 Require Import Verif.Export.OasTypes Verif.Export.OasExport Verif.Export.OasCurrent Verif.Export.GoMapProps
                Verif.Export.OasExportProps Verif.Export.OasParamProps Verif.Export.OasKindProps Verif.Export.SwExport
                Verif.Export.SwExportProps Verif.Export.SwRoundTrip Verif.Gen.ExportTables
-               Verif.Export.OasParamRefProps Verif.Export.OasStmtProps Verif.Export.CliExport Verif.Export.CliExportProps Verif.Gen.ExportCli.
+               Verif.Export.OasParamRefProps Verif.Export.OasStmtProps Verif.Export.CliExport Verif.Export.CliExportProps Verif.Gen.ExportCli
+               Verif.Export.OasInfo Verif.Export.OasInfoProps Verif.Gen.ExportInfo.
 Require Verif.Foreign.NameEscape Verif.Foreign.ImportSpec Verif.Foreign.ImportRun.
 
 (* ---- obligations against the source (break when an arm of exportType, the rule filling `required`, the assignment
@@ -407,3 +408,62 @@ Theorem C12_export_import_roundtrip_swagger_refuted :
                               (NameEscape.of_string "ok", fld "BOOL")])].
 Proof. exact export_import_roundtrip_swagger_refuted. Qed.
 Print Assumptions C12_export_import_roundtrip_swagger_refuted.
+
+(* ==== third pass: info / servers (OpenAPI 3) and info / host (Swagger 2).  `export_info3 tb o a` / `export_info2 tb a` are the
+   models (Export/OasInfo.v) of what GenerateOpenAPI3 / GenerateSwagger write there, parameterised by the table of assignments
+   and defaults regenerated from the source (Gen/ExportInfo.v); `fixed_itables` = the repaired tree (C12-8). *)
+Theorem C12_info_tables_current : info_tables_of_source = fixed_itables /\ info_unknown = [].
+Proof. exact info_tables_current. Qed.
+Print Assumptions C12_info_tables_current.
+
+(* complete, full (any iteration order, any attributes): the title is the application's name; version / description / contact.* read
+   the attribute of that name (`attr_is`: the text of a string attribute, "" for an array-valued or absent one), the version
+   falling back to "0.0.0"; the extensions are exactly the attributes whose key begins with "x-", each with its text; there is one
+   server - url env.1.url, description env.1.description - exactly when env.1.url is not empty *)
+Theorem C12_info3_complete : forall o a, perm_oracle o -> wf_iapp a ->
+  let i := export_info3 fixed_itables o a in
+  i3_title i = ia_name a /\
+  (exists s, attr_is a "version" s /\ i3_version i = if String.eqb s "" then "0.0.0"%string else s) /\
+  attr_is a "description" (i3_desc i) /\
+  attr_is a "contact.name" (i3_cname i) /\ attr_is a "contact.email" (i3_cemail i) /\ attr_is a "contact.url" (i3_curl i) /\
+  (forall r k v, In (r, (k, v)) (ia_attrs a) -> String.prefix "x-" k = true -> In (r, (k, gets v)) (i3_ext i)) /\
+  (forall r k s, In (r, (k, s)) (i3_ext i) -> String.prefix "x-" k = true /\ exists v, In (r, (k, v)) (ia_attrs a) /\ s = gets v) /\
+  (exists u d, attr_is a "env.1.url" u /\ attr_is a "env.1.description" d /\
+               i3_servers i = if String.eqb u "" then [] else [(u, d)]).
+Proof. exact info3_complete. Qed.
+Print Assumptions C12_info3_complete.
+
+Example C12_info_nonvacuous : wf_iapp info_example /\ ia_name info_example <> ""%string.
+Proof. exact info_example_wf. Qed.
+
+(* well-formed, full: the two fields OpenAPI requires of `info` are never empty (for an application with a name) *)
+Theorem C12_info3_wellformed : forall o a, ia_name a <> ""%string ->
+  i3_title (export_info3 fixed_itables o a) <> ""%string /\ i3_version (export_info3 fixed_itables o a) <> ""%string.
+Proof. exact info3_wellformed. Qed.
+Print Assumptions C12_info3_wellformed.
+
+(* ... refuted for the tree as found in this pass (no default in GenerateOpenAPI3): an application without @version *)
+Theorem C12_info3_version_found_refuted :
+  exists a, wf_iapp a /\ ia_name a <> ""%string /\ i3_version (export_info3 found_itables (fun l => l) a) = ""%string.
+Proof. exact info3_version_found_refuted. Qed.
+Print Assumptions C12_info3_version_found_refuted.
+
+(* order independent, full, ANY table: mapAttributes and the extension copy range over Go maps *)
+Theorem C12_info3_order_independent : forall tb o1 o2 a, perm_oracle o1 -> perm_oracle o2 -> NoDup (map fst (ia_attrs a)) ->
+  export_info3 tb o1 a = export_info3 tb o2 a.
+Proof. exact info3_order_independent. Qed.
+Print Assumptions C12_info3_order_independent.
+
+(* Swagger 2: title = the long name, else the name; version with the same default; description and host read their attribute *)
+Theorem C12_info2_complete : forall a,
+  let i := export_info2 fixed_itables a in
+  i2_title i = (if String.eqb (ia_long a) "" then ia_name a else ia_long a) /\
+  (exists s, attr_is a "version" s /\ i2_version i = if String.eqb s "" then "0.0.0"%string else s) /\
+  attr_is a "description" (i2_desc i) /\ attr_is a "host" (i2_host i).
+Proof. exact info2_complete. Qed.
+Print Assumptions C12_info2_complete.
+
+Theorem C12_info2_wellformed : forall a, ia_name a <> ""%string ->
+  i2_title (export_info2 fixed_itables a) <> ""%string /\ i2_version (export_info2 fixed_itables a) <> ""%string.
+Proof. exact info2_wellformed. Qed.
+Print Assumptions C12_info2_wellformed.
